@@ -152,6 +152,10 @@ func c16ValidateOpts(raw []byte) *validate.Options {
 
 func runC16(r *mc.Run) {
 	w := world.Honest("T")
+	// a quote that exercises every region: trailing bytes after the signed data and a NUL after the chain
+	w.Spec.Extra = world.Fill("c16-extra", 24)
+	w.Spec.NulAfter = true
+	w.Parts = w.Spec.Parts()
 	raw0 := w.Raw()
 	parsed, err := safeToProto(raw0)
 	if err != nil {
@@ -450,6 +454,9 @@ func sha(b []byte) []byte {
 // operations, concurrently, on shared messages that live on the ordinary Go heap.
 func RaceBodies(reps int) {
 	w := world.Honest("T")
+	w.Spec.Extra = world.Fill("c16-extra", 24)
+	w.Spec.NulAfter = true
+	w.Parts = w.Spec.Parts()
 	raw0 := w.Raw()
 	vo := c16ValidateOpts(raw0)
 	parsed, _ := safeToProto(raw0)
